@@ -83,6 +83,9 @@ def bellman_ford(
         if dist[target] == float("inf"):
             return Result(None, float("inf"), iterations, len(edges), Status.INFEASIBLE)
         path = _reconstruct_indexed(parent, target)
+        if path is None:
+            # Rounding closed a cycle of parent pointers (a cycle whose float weight is not positive)
+            return Result(None, float("-inf"), iterations, len(edges), Status.UNBOUNDED)
         return Result(path, dist[target], iterations, len(edges))
 
     distances = {i: dist[i] for i in range(n_nodes) if dist[i] < float("inf")}
@@ -90,8 +93,11 @@ def bellman_ford(
 
 
 def _reconstruct_indexed(parent, target):
+    """Path to target along parent pointers, None if the pointers run in a cycle."""
     path = [target]
     while parent[path[-1]] != -1:
+        if len(path) > len(parent):
+            return None
         path.append(parent[path[-1]])
     path.reverse()
     return path
